@@ -30,7 +30,7 @@ META = {
         "fermionic_core.FermionicArray.unfuse",
     ],
     "floors": {
-        "quick": {"evaluations": 4000, "distinct_nontrivial": 500, "tables": {"strategy/insert": 1000, "strategy/concat": 1000, "kind/fermionic": 500, "roundtrip": 2000, "hook/plan-compared": 2000, "feature/nested": 50, "feature/single-axis-group": 300, "feature/conj-of-fused-before": 300, "feature/empty-group": 1000, "feature/signed-zeros": 500}},
+        "quick": {"evaluations": 4000, "distinct_nontrivial": 500, "tables": {"strategy/insert": 1000, "strategy/concat": 1000, "kind/fermionic": 500, "roundtrip": 2000, "hook/plan-compared": 2000, "feature/nested": 50, "feature/single-axis-group": 300, "feature/conj-of-fused-before": 300, "feature/empty-group": 1000, "feature/signed-zeros": 500, "feature/group-of-5-or-more-axes": 1500, "feature/sector-with->=6-odd-charges-in-one-group": 100}},
         "thorough": {"evaluations": 300000, "distinct_nontrivial": 30000, "tables": {"strategy/concat": 50000, "kind/fermionic": 30000, "feature/nested": 3000}},
     },
     "wall": {"quick": 300, "thorough": 1700},
@@ -343,7 +343,7 @@ def sparsity_subsets(rng, secs, cap_all=6, nsample=48):
 
 def case_structure(ctx, hooks, rng):
     sr = ctx.sr
-    sym = rng.choice(gen.SYMS5)
+    sym = gen.pick_sym(rng)
     ferm = rng.random() < 0.4
     nd = rng.choice([2, 3, 3, 4, 4, 4, 5])
     maxd = 2 if nd >= 4 else 3
@@ -404,10 +404,71 @@ def case_structure(ctx, hooks, rng):
                 return
 
 
+def case_many_legs(ctx, hooks, rng):
+    """6-8 legs, one group of 5-7 axes (not necessarily the last group) beside a spectator leg
+    or a second group; legs with two charges of size one (Z2-like: a sector can hold six or
+    seven odd charges inside the group) or three charges (U1: more than four sub-sectors per
+    fused charge); all-dual and all-ket groups; a third of the blocks dropped."""
+    sr = ctx.sr
+    sym = rng.choice(["Z2", "Z2", "U1", "U1", "Z4", "Z2Z2", gen.pick_sym(rng)])
+    ferm = rng.random() < 0.55
+    wide = sym in ("U1", "Z4", "Z3") and rng.random() < 0.5
+    nd = rng.randint(5, 6) if wide else rng.randint(6, 8)
+    pool = gen.POOL[sym]
+    du = rng.choice(["random", "random", "all-dual", "all-ket"])
+    idx = []
+    for _ in range(nd):
+        cs = rng.sample(pool, min(len(pool), 3 if wide else 2))
+        dual = {"random": rng.random() < 0.5, "all-dual": True, "all-ket": False}[du]
+        idx.append(sr.BlockIndex({c: (2 if rng.random() < 0.1 else 1) for c in sorted(cs)}, dual=dual))
+    charge = gen.pick_charge(rng, sym, idx)
+    secs = gen.all_sectors(sym, idx, charge)
+    if not secs:
+        return
+    cls, extra, kind = gen.pick_class(sr, rng, sym, ferm)
+    vals = gen.Values(rng, "unique", rng.choice(["float64", "float64", "complex128"]))
+    axes = list(range(nd))
+    rng.shuffle(axes)
+    k = rng.randint(5, nd - 1) if nd > 5 else 4
+    if rng.random() < 0.15:
+        k = nd
+    long_ = tuple(axes[:k])
+    rest = axes[k:]
+    groups = [long_]
+    if rest and rng.random() < 0.6:
+        g2 = tuple(rest[: rng.randint(1, len(rest))])
+        groups = [long_, g2] if rng.random() < 0.6 else [g2, long_]
+    groups = tuple(groups)
+    for rep in range(ctx.n(2, 4)):
+        frac = rng.choice([1.0, 0.7, 0.7, 0.4])
+        keep = [s_ for s_ in secs if rng.random() < frac] or [rng.choice(secs)]
+        if rep == 0 and rng.random() < 0.5:
+            # drop one whole branch: every sector that shares a prefix inside the long group
+            pre = tuple(rng.choice(secs)[a] for a in long_[:2])
+            keep = [s_ for s_ in keep if tuple(s_[a] for a in long_[:2]) != pre] or keep
+        rng.shuffle(keep)
+        blocks = {s_: vals(tuple(ix.chargemap[c] for ix, c in zip(idx, s_))) for s_ in keep}
+        kw = dict(indices=tuple(idx), charge=charge, blocks=blocks, **extra)
+        if ferm and R.par(sym, charge):
+            kw["oddpos"] = 7
+        x = cls(**kw)
+        if ferm:
+            gen.add_phases(rng, x, rng.choice([0, 1, 2]))
+        feat = ["group-of-5-or-more-axes", f"legs:{du}"]
+        nodd = max((sum(R.par(sym, s_[a]) for a in long_) for s_ in keep), default=0)
+        if ferm and nodd >= 6:
+            feat.append("sector-with->=6-odd-charges-in-one-group")
+        if len(groups) > 1:
+            feat.append("multi-group")
+        one_fuse(ctx, hooks, rng, x, groups, feat)
+        if not ctx.time_left():
+            return
+
+
 def case_nested(ctx, hooks, rng):
     """Groups containing already-fused axes."""
     sr = ctx.sr
-    sym = rng.choice(gen.SYMS5)
+    sym = gen.pick_sym(rng)
     ferm = rng.random() < 0.4
     x0 = gen.rand_array(sr, rng, sym, ndim=rng.choice([3, 4]), fermionic=ferm, values=gen.Values(rng, "unique"), maxd=2)
     g0 = groupings(rng, x0.ndim, 3)
@@ -431,7 +492,7 @@ def case_empty_groups(ctx, hooks, rng):
     from symv.dense import embed
 
     sr = ctx.sr
-    sym = rng.choice(gen.SYMS5)
+    sym = gen.pick_sym(rng)
     ferm = rng.random() < 0.4
     x = gen.rand_array(sr, rng, sym, ndim=rng.choice([2, 3, 4]), fermionic=ferm, values=gen.Values(rng, "unique"), maxd=2)
     groups = list(rng.choice(groupings(rng, x.ndim, 4)))
@@ -493,6 +554,8 @@ def run(ctx):
         ctx.run_case(case_nested, ctx, hooks, rng)
     for _, rng in ctx.cases("empty-groups", ctx.budget(6000, 100000)):
         ctx.run_case(case_empty_groups, ctx, hooks, rng)
+    for _, rng in ctx.cases("many-legs", ctx.budget(1500, 30000)):
+        ctx.run_case(case_many_legs, ctx, hooks, rng)
     for _, rng in ctx.cases("structure", ctx.budget(13000, 20000)):
         ctx.run_case(case_structure, ctx, hooks, rng)
     # the plan a fuse uses comes from a cache keyed by a digest: hunt for two different
